@@ -48,7 +48,7 @@ CFG = {
     "level": "proof",
     "streams": [
         # stateless: Serialize / ParseUDPMessage / FragUDPMessage
-        {"mod": "core", "component": "frag", "driver": "frag", "n": {"quick": 10000, "thorough": 150000}},
+        {"mod": "core", "component": "frag", "driver": "frag", "n": {"quick": 7000, "thorough": 150000}},
         # the real send paths (server receiveLoop -> sendMessageAutoFrag, client NewUDP -> udpConn.Send) over a scripted transport
         {"mod": "core", "component": "autofrag", "driver": "frag", "n": {"quick": 8000, "thorough": 200000}},
         # stateful: the real Defragger driven by fragment histories of up to 6 concurrent messages
@@ -68,6 +68,11 @@ CFG = {
             "address 1..2048, transport limit uniform 20..1500 / around the header size / at the 254..257-fragment boundary / 2..8 parts / "
             "fits-whole+-1, honest transport (too-large iff longer than the limit) or one that refuses the whole datagram regardless, "
             "SendDatagram failure at call 0/1/2/3/5/17/100/254/255, server logger refusal at call 0..3. "
+            "autofrag sessions: ONE real receiveLoop / ONE real udpConn relaying 4..8 packets (60% with the same fragment count 2..6, "
+            "others with another count, fitting whole, or another address), optional SendDatagram failure at one call; oracles on the whole "
+            "session: first datagram of every packet is the whole message with packet id 0, k>=4 fragmented packets never all carry one id, "
+            "everything that left fed in order to ONE real Defragger yields exactly the completely sent payloads, and under tail/head loss of "
+            "adjacent packets and pseudo-random loss/reorder/duplication only payloads that were sent. "
             "defrag: histories = reset; 1..6 messages with distinct packet ids split by the real splitter (1, 2..6, 7..40, 254/255 "
             "fragments, >255 = discarded); fragments fed in one-message-any-order-with-duplicates, message-after-message, interleaved "
             "with drops and duplicates, or mixed with raw malformed/colliding fragments. defragx: exhaustive arrival orders. "
@@ -108,7 +113,10 @@ MANIFEST = {
             "the 4096-byte buffer with -1 = silent drop) are modelled with logger/transport/draw as inputs: everything handed to SendDatagram "
             "after the whole attempt is <= L and is a prefix of one fragment set with a common non-zero id; a message over 4096 bytes or "
             "needing >255 fragments is not sent at all; what leaves, parsed and fed in any order with duplicates to a fresh Defragger, yields "
-            "exactly the original; after a mid-set failure only a proper prefix has left and the receiver emits nothing. The pinned tree's uint8 count wrap "
+            "exactly the original; after a mid-set failure only a proper prefix has left and the receiver emits nothing. Sessions (several packets "
+            "through one receiveLoop / udpConn) are explicit: each packet's result is a function of its own message, draw and answers only "
+            "(fresh id per packet), and for pairwise distinct draws any loss/reorder/duplication of a session's datagrams yields only payloads "
+            "of single packets of the session. The pinned tree's uint8 count wrap "
             "(defect D1) is characterised exactly (panics iff >=256 fragments are needed) with decide-checked witnesses. The model is tied "
             "to the source by a differential on >50k cases (quick) incl. exhaustive arrival orders with one duplicate.",
     "note": "Trusted: Lean kernel (+leanchecker), axioms propext/Quot.sound/Classical.choice at most; the Go harness and hydrv driver; "
